@@ -766,8 +766,11 @@ TAG_SPEC = os.path.join(SPECS, "conv", "MC_TagExtract.tla")
 MARKUP_ACTIONS = ["AGrow", "AStart", "ABegin", "AEnter", "AExit", "AClose"]
 # (label, Kinds, MaxNodes, Strings, Convs, Modes)
 MARKUP_CONFIGS = {
-    "quick": [("markup", "HocrKinds", 4, "MPaletteQuick", "BothConvs", "AllModes")],
-    "thorough": [("markup", "HtmlKinds", 5, "MPalette", "BothConvs", "AllModes"), ("markup-strings", "FlatKinds", 3, "MStr2", "BothConvs", "NormalMode")],
+    "quick": [("markup", "HocrKinds", 4, "MPaletteQuick", "BothConvs", "AllModes"),
+              # several glyphs in one line: the word collector of HOCRConverter, the span bookkeeping of HTMLConverter
+              ("markup-lines", "LineKinds", 6, "MLines", "BothConvs", "NormalMode")],
+    "thorough": [("markup", "HtmlKinds", 5, "MPalette", "BothConvs", "AllModes"), ("markup-strings", "FlatKinds", 3, "MStr2", "BothConvs", "NormalMode"),
+                 ("markup-lines", "LineKinds", 7, "MLines", "BothConvs", "NormalMode")],
 }
 
 
@@ -815,15 +818,24 @@ def markup_predicates(ck, conv, mode, real, Treal):
         bad, text = M.read_html(real)
         if bad:
             ext(ck, "html:not-well-formed")
-        # the fixed texts the converter adds itself: "Page n" anchors and the footer's "Page: 1, 2"
-        elif want not in M.nospace(text):
-            ext(ck, "html:glyph-text-missing")
+        else:
+            # per page (the converter adds "Page n" anchors between the pages and "Page: 1, 2" at the end)
+            got = M.nospace(text)
+            pos = 0
+            starts = [q for q, n in enumerate(Treal) if n["k"] == "page"] + [len(Treal)]
+            for a, b in zip(starts, starts[1:]):
+                part = M.nospace(M.glyph_text(Treal[a:b], conv, mode))
+                at = got.find(part, pos)
+                if at < 0:
+                    ext(ck, "html:glyph-text-missing")
+                    break
+                pos = at + len(part)
     else:
         bad, text, nest = M.read_hocr(real)
         if bad:
             ext(ck, "hocr:not-well-formed")
         elif M.hocr_domain(Treal):
-            if M.nospace(text) != want:
+            if M.nospace(text) != C.strip_control(want):
                 ext(ck, "hocr:glyph-text-differs")
             if nest:
                 ext(ck, "hocr:nesting")
@@ -966,7 +978,8 @@ def markup_traces(ck, seen):
                                     "%s of %s" % (conv, origin))
             ck.case(1, ("markup-sample", origin, conv))
             # the recording in the specification's alphabet: each token of the as-coded stream whose concrete form is at the cursor
-            toks = M.markup_chars(Tm, conv, "normal", devs)
+            tdev = [] if state == "intended" else list(devs)
+            toks = M.markup_chars(Tm, conv, "normal", tdev)
             out, pos = [], 0
             for tk in toks:
                 cs = con.ch(tk)
@@ -979,7 +992,7 @@ def markup_traces(ck, seen):
             if conv == "hocr":
                 # the trace machine's word key: size class + 2 * parent; make `a` carry the whole identity within a line
                 pass
-            traces.append({"conv": conv, "mode": "normal", "origin": origin,
+            traces.append({"conv": conv, "mode": "normal", "origin": origin, "dev": tdev,
                            "T": [{"k": n["k"], "d": n["d"], "s": n["s"], "f": n["f"], "a": n["a"] if n["k"] == "char" else 0} for n in Tm], "out": out})
     if not traces:
         return
@@ -989,7 +1002,7 @@ def markup_traces(ck, seen):
         json.dump(traces, f)
     cfg = write_cfg(os.path.join(ck.tmp, "c11_markup_trace.cfg"),
                     constants={"MaxNodes": 1, "Strings": "{}", "Kinds": "{}", "DevChoices": "{}", "Convs": "{}", "Modes": "{}",
-                               "ParseOutput": "FALSE", "Dev": tla_set(M.MARKUP_DEVS)},
+                               "ParseOutput": "FALSE"},
                     init="TraceInit", next="TraceNext", invariants=["TraceMatches", "WholeMatches"])
     res = run_tlc(MARKUP_TRACE_SPEC, cfg, workers=4, env={"TRACE_FILE": tf}, timeout=1800, heap="8g")
     ck.add_tlc(res, "trace validation of %d recorded html / hocr runs" % len(traces))
@@ -1020,8 +1033,9 @@ def direction_tag(ck, seen):
     wrapper = os.path.join(ck.tmp, mod + ".tla")
     with open(wrapper, "w") as f:
         f.write('---- MODULE %s ----\nEXTENDS MC_TagExtract\nTheDevs == {{}, %s}\n====\n' % (mod, tla_set(M.TAG_DEVS)))
-    maxops, strings = (3, "TPalette") if ck.tier == "quick" else (4, "TPalette")
-    cfg = write_cfg(os.path.join(ck.tmp, mod + ".cfg"), constants={"MaxOps": maxops, "MaxDepth": 2, "Strings": "<- " + strings, "DevChoices": "<- TheDevs"},
+    maxops, strings, tags = (4, "TOne", "Tags2") if ck.tier == "quick" else (4, "TPalette", "Tags3")
+    cfg = write_cfg(os.path.join(ck.tmp, mod + ".cfg"), constants={"MaxOps": maxops, "MaxDepth": 2, "Strings": "<- " + strings, "DevChoices": "<- TheDevs",
+                                                                    "Tags": "<- " + tags},
                     invariants=["TagWellFormed", "TagStackEmpty", "TagTextFaithful", "TagElementsMatch", "StackIsOpenTags"], constraints=["EmitTerminal"])
     emit = os.path.join(ck.tmp, mod + ".ndjson")
     res = run_tlc(wrapper, cfg, emit=emit, timeout=3600, lib=os.path.join(SPECS, "conv"), env=JVM)
@@ -1042,6 +1056,7 @@ def direction_tag(ck, seen):
         raise MachineryError("emitted %d terminal states but read %d" % (res.emitted, n))
     rng = random.Random(ck.seed)
     limit = 800 if ck.tier == "quick" else 20000
+    progs.sort(key=lambda pr: json.dumps(pr, sort_keys=True))          # TLC's emission order depends on its workers
     if len(progs) > limit:
         progs = rng.sample(progs, limit)
     con = M.TagConcrete(0)
